@@ -28,6 +28,31 @@ pub enum Step {
 }
 
 pub const KINDS: [ErrorKind; 4] = [ErrorKind::Other, ErrorKind::TimedOut, ErrorKind::WouldBlock, ErrorKind::UnexpectedEof];
+/// Errors that come from the operating system (they carry an errno, no payload): EAGAIN, ETIMEDOUT, EIO, EPIPE.
+pub const OS_ERRORS: [i32; 4] = [11, 110, 5, 32];
+
+/// The error `Step::Error(k)` stands for: a custom one of `KINDS[k]` for k < 4, an OS one otherwise.
+pub fn scripted_error(k: u8, msg: String) -> std::io::Error {
+    let k = k as usize % (KINDS.len() + OS_ERRORS.len());
+    if k < KINDS.len() {
+        std::io::Error::new(KINDS[k], msg)
+    } else {
+        std::io::Error::from_raw_os_error(OS_ERRORS[k - KINDS.len()])
+    }
+}
+
+/// A copy of an error that keeps what can be observed of it: errno, payload or not, message.
+fn copy_err(e: &std::io::Error) -> std::io::Error {
+    match (e.raw_os_error(), e.get_ref().is_some()) {
+        (Some(code), _) => std::io::Error::from_raw_os_error(code),
+        (None, true) => std::io::Error::new(e.kind(), e.to_string()),
+        (None, false) => e.kind().into(),
+    }
+}
+
+pub fn scripted_kind(k: u8) -> ErrorKind {
+    scripted_error(k, String::new()).kind()
+}
 
 /// A reader that follows a fault script and records what it was asked.
 pub struct FaultReader<'a> {
@@ -39,6 +64,7 @@ pub struct FaultReader<'a> {
     pub log: Vec<(usize, Option<usize>)>,
     /// Message of the last error this reader returned (every error it makes is unique).
     pub last_error: Option<String>,
+    pub last_raw: Option<i32>,
 }
 
 impl<'a> FaultReader<'a> {
@@ -50,6 +76,7 @@ impl<'a> FaultReader<'a> {
             step: 0,
             log: vec![],
             last_error: None,
+            last_raw: None,
         }
     }
 }
@@ -65,13 +92,15 @@ impl std::io::Read for FaultReader<'_> {
                 self.log.push((buf.len(), None));
                 let msg = format!("scripted EINTR (call #{})", self.log.len());
                 self.last_error = Some(msg.clone());
+                self.last_raw = None;
                 return Err(std::io::Error::new(ErrorKind::Interrupted, msg));
             }
             Step::Error(k) => {
                 self.log.push((buf.len(), None));
-                let msg = format!("scripted failure (call #{})", self.log.len());
-                self.last_error = Some(msg.clone());
-                return Err(std::io::Error::new(KINDS[k as usize % KINDS.len()], msg));
+                let e = scripted_error(k, format!("scripted failure (call #{})", self.log.len()));
+                self.last_error = Some(e.to_string());
+                self.last_raw = e.raw_os_error();
+                return Err(e);
             }
             Step::Eof => 0,
             Step::Deliver(k) => (k as usize).max(1).min(buf.len()).min(left),
@@ -113,7 +142,7 @@ pub fn reference(script: &[Step], data_left: usize, count: usize, attempts: usiz
         match step {
             Step::Interrupted => last_err = Some(ErrorKind::Interrupted),
             Step::Error(k) => {
-                last_err = Some(KINDS[k as usize % KINDS.len()]);
+                last_err = Some(scripted_kind(k));
                 break;
             }
             Step::Eof => {
@@ -200,7 +229,7 @@ fn compare(what: &str, case_desc: &str, reader: &FaultReader<'_>, want: &Expecte
             }
             // "Fails with the last error": the reader's own error object, not a lookalike of the same kind.
             if let Some(last) = &reader.last_error {
-                if e.to_string() != *last || e.get_ref().is_none() {
+                if e.to_string() != *last || e.raw_os_error() != reader.last_raw || (reader.last_raw.is_none() && e.get_ref().is_none()) {
                     return Err(Fail::new(
                         format!("{what}:error-identity"),
                         format!("{case_desc}: failed with \"{e}\" (payload kept: {}), the reader's last error was \"{last}\"", e.get_ref().is_some()),
@@ -257,7 +286,7 @@ pub fn check_case(case: &Case) -> CaseResult {
             let mut arena = ByteArena::new();
             prepare_arena(&mut arena, case.arena_prep);
             let first = arena.read_n(&mut reader, count, n);
-            let got = first.as_ref().map(|s| s.slice().to_vec()).map_err(|e| std::io::Error::new(e.kind(), e.to_string()));
+            let got = first.as_ref().map(|s| s.slice().to_vec()).map_err(copy_err);
             compare("arena", &desc, &reader, &want, &got, &data, 0)?;
             let mut rd = &second_data[..];
             let second = arena.read_n(&mut rd, 5, NonZeroUsize::new(1).unwrap()).map_err(|e| Fail::new("arena:second-read", e.to_string()))?;
@@ -279,7 +308,7 @@ pub fn check_case(case: &Case) -> CaseResult {
             let mut enc = Encoder::new();
             prepare_arena(enc.consumer().arena(), case.arena_prep);
             let first = enc.read_n(&mut reader, count, n);
-            let got = first.as_ref().map(|s| s.slice().to_vec()).map_err(|e| std::io::Error::new(e.kind(), e.to_string()));
+            let got = first.as_ref().map(|s| s.slice().to_vec()).map_err(copy_err);
             compare("encoder.read_n", &desc, &reader, &want, &got, &data, 0)?;
             // Reading alone must not have produced any output.
             let out = enc.finish().flatten().map_err(|_| Fail::new("encoder:finish-pending", "placeholder pending"))?;
@@ -291,7 +320,7 @@ pub fn check_case(case: &Case) -> CaseResult {
             let mut dec = Decoder::new();
             prepare_arena(dec.consumer().arena(), case.arena_prep);
             let first = dec.read_n(&mut reader, count, n);
-            let got = first.as_ref().map(|s| s.slice().to_vec()).map_err(|e| std::io::Error::new(e.kind(), e.to_string()));
+            let got = first.as_ref().map(|s| s.slice().to_vec()).map_err(copy_err);
             compare("decoder.read_n", &desc, &reader, &want, &got, &data, 0)?;
             if dec.consumer().total_size() != 0 {
                 return Err(Fail::new("decoder.read_n:output-affected", format!("{desc}: read_n alone produced decoder output")));
@@ -337,9 +366,9 @@ pub fn check_codec_case(case: &CodecCase) -> CaseResult {
         let r = if case.decode { dec.decode_read(&mut reader, count, n) } else { enc.encode_read(&mut reader, count, n) };
         // Translate into the shape `compare` expects.
         let delivered = reader.pos;
-        let got: std::io::Result<Vec<u8>> = match &r {
+        let got: std::io::Result<Vec<u8>> = match r {
             Ok(k) => {
-                if *k != delivered {
+                if k != delivered {
                     return Err(Fail::new("codec_read:count", format!("{desc}: returned {k} but the reader delivered {delivered} bytes")));
                 }
                 Ok(left[..delivered].to_vec())
@@ -349,7 +378,8 @@ pub fn check_codec_case(case: &CodecCase) -> CaseResult {
                 decoder_failed = Some(e.to_string());
                 Ok(left[..delivered].to_vec())
             }
-            Err(e) => Err(std::io::Error::new(e.kind(), e.to_string())),
+            // (the error itself, untouched: its identity is compared)
+            Err(e) => Err(e),
         };
         compare(if case.decode { "decode_read" } else { "encode_read" }, &desc, &reader, &want, &got, left, 0)?;
         pos += delivered;
@@ -398,7 +428,7 @@ fn step() -> impl Strategy<Value = Step> {
         2 => Just(Step::DeliverAll),
         3 => Just(Step::Interrupted),
         1 => Just(Step::Eof),
-        2 => (0u8..4).prop_map(Step::Error),
+        2 => (0u8..8).prop_map(Step::Error),
     ]
 }
 
@@ -443,7 +473,7 @@ pub fn check_seq_case(case: &SeqCase) -> CaseResult {
         let desc = format!("read #{i}: read_n(count {count}, attempts {attempts}) after warm-up {:?}, script {script:?}", case.warmup);
         let mut reader = FaultReader::new(left, script);
         let r = arena.read_n(&mut reader, count, NonZeroUsize::new(attempts).unwrap());
-        let got = r.as_ref().map(|s| s.slice().to_vec()).map_err(|e| std::io::Error::new(e.kind(), e.to_string()));
+        let got = r.as_ref().map(|s| s.slice().to_vec()).map_err(copy_err);
         compare("arena-seq", &desc, &reader, &want, &got, left, 0)?;
         if let Ok(slice) = r {
             kept.push((slice, pos, pos + want.delivered));
@@ -516,7 +546,7 @@ fn codec_case_strategy() -> impl Strategy<Value = CodecCase> {
 
 /// All scripts up to length 4 over a 7-step alphabet x counts x attempts x arena states x entry point.
 fn exhaustive(ctx: &Ctx, rep: &mut Report, max_len: usize) {
-    let alphabet = [Step::Deliver(1), Step::Deliver(2), Step::DeliverAll, Step::Interrupted, Step::Eof, Step::Error(0), Step::Error(1)];
+    let alphabet = [Step::Deliver(1), Step::Deliver(2), Step::DeliverAll, Step::Interrupted, Step::Eof, Step::Error(0), Step::Error(4)];
     let mut scripts: Vec<Vec<Step>> = vec![vec![]];
     let mut frontier: Vec<Vec<Step>> = vec![vec![]];
     for _ in 0..max_len {
@@ -605,7 +635,7 @@ fn replay(_ctx: &Ctx, group: &str, case: &Value) -> CaseResult {
 pub fn def() -> PropDef {
     PropDef {
         id: "C17",
-        rule: "A case is a reader fault script over {deliver k bytes, deliver all, Interrupted, end of file, hard error of four kinds} (end of file after the script), a count from {0,1,2,3,7,4096,70000,0..600}, an attempt limit 1..6, an arena state (fresh, pre-sized, 0..3 bytes left in the current chunk) and an entry point (ByteArena::read_n, Encoder::read_n, Decoder::read_n); codec-read cases are sequences of encode_read / decode_read calls each with its own script; large-read-sequences are 1..4 reads in a row on one arena, optionally warmed up with ensure_capacity calls, with counts around the arena's chunk sizes (256 KiB .. 2 MiB, exactly 2^19 / 2^20 and +-1), all returned slices kept, compared and checked for overlap. The reader records the buffer size of every call. Oracle: a reference loop written from the documentation predicts the number of calls (<= attempts), the size offered in each call (count - delivered so far), where it stops (end of file, first non-interrupt error, count reached), the returned bytes and Ok/Err (Err with the last error's kind iff nothing was delivered and end of file did not come first); count 0 means no call and an empty slice; a following read does not overlap or change the returned slice; read_n alone leaves the codec output untouched and after encode_read / decode_read calls the final output is the reference encoding / decoding of exactly the delivered bytes. exhaustive-scripts enumerates all scripts up to length 4 (5) over 7 steps x 7 counts x 6 attempt limits x 5 (entry point, arena state) pairs. Non-trivial: the executed part of the script mixes >= 2 kinds of step and the read is short or failed. Distinct: hash of the serialised case / by enumeration.",
+        rule: "A case is a reader fault script over {deliver k bytes, deliver all, Interrupted, end of file, hard error of four kinds, built by the caller (with a message) or coming from the operating system (EAGAIN, ETIMEDOUT, EIO, EPIPE: an errno, no payload)} (end of file after the script), a count from {0,1,2,3,7,4096,70000,0..600}, an attempt limit 1..6, an arena state (fresh, pre-sized, 0..3 bytes left in the current chunk) and an entry point (ByteArena::read_n, Encoder::read_n, Decoder::read_n); codec-read cases are sequences of encode_read / decode_read calls each with its own script; large-read-sequences are 1..4 reads in a row on one arena, optionally warmed up with ensure_capacity calls, with counts around the arena's chunk sizes (256 KiB .. 2 MiB, exactly 2^19 / 2^20 and +-1), all returned slices kept, compared and checked for overlap. The reader records the buffer size of every call. Oracle: a reference loop written from the documentation predicts the number of calls (<= attempts), the size offered in each call (count - delivered so far), where it stops (end of file, first non-interrupt error, count reached), the returned bytes and Ok/Err (Err with the last error's kind iff nothing was delivered and end of file did not come first); count 0 means no call and an empty slice; a following read does not overlap or change the returned slice; read_n alone leaves the codec output untouched and after encode_read / decode_read calls the final output is the reference encoding / decoding of exactly the delivered bytes. exhaustive-scripts enumerates all scripts up to length 4 (5) over 7 steps x 7 counts x 6 attempt limits x 5 (entry point, arena state) pairs. Non-trivial: the executed part of the script mixes >= 2 kinds of step and the read is short or failed. Distinct: hash of the serialised case / by enumeration.",
         assumptions: &["readers never deliver more than the buffer they are given", "reference codec of C07 for the codec-read outputs"],
         exhaustive_note: Some("exhaustive-scripts: complete enumeration"),
         shards: |t: Tier| t.pick(8, 16),
